@@ -242,18 +242,42 @@ theorem isInteger_head47 (t : List Byte) (h : isInteger t = true) : ∃ c u, t =
   revert h
   simp [isInteger, splitSign, allDigits, isDigit]
 
+/-- no "missing element" verdict where a token stands -/
+theorem elemMissing_tok (cfg : RWCfg) (l : List Byte) (c : Byte) (t : List Byte) (sk : Bool) (h44 : c ≠ 44) (h41 : c ≠ 41) :
+    elemMissing cfg (G l (c :: t) sk) = (false, G l (c :: t) sk) := by
+  unfold elemMissing
+  cases cfg.aggrReportsMissingElement
+  · rfl
+  · have e1 : (c == 44) = false := by simpa using h44
+    have e2 : (c == 41) = false := by simpa using h41
+    simp [peekC_good, e1, e2]
+
+theorem elemReadCore_integer (env : Env F) (s : IStream) :
+    elemReadCore env .integer s = (do
+      let (e, a, s1) ← scalarNodeRead env .integer s
+      let (s2, e2) := checkRemainingInput env.lex (some attrDelims) s1 e
+      pure (e2, .atom a, s2)) := rfl
+
 theorem elemRead_int (env : Env F) (hcfg : env.lex.criSkipsComments = true) (hagg : env.cfg.aggrSkipsComments = true)
     (e : ElemP) (he : ElemOK e) (l : List Byte) (sk : Bool) (d : Byte) (rest : List Byte) (hd : d = 44 ∨ d = 41) :
     elemRead env .integer (G l (e.before ++ (e.tok ++ (e.after ++ d :: rest))) sk) =
       .ok (.null, elemVal e, G (e.after.reverse ++ (e.tok.reverse ++ (e.before.reverse ++ l))) (d :: rest) sk) := by
   obtain ⟨htok, hlo, hhi, hb, ha⟩ := he
-  obtain ⟨c, u, hcu, hcs, h47, _⟩ := isInteger_head47 e.tok htok
+  obtain ⟨c, u, hcu, hcs, h47, h41⟩ := isInteger_head47 e.tok htok
+  have h44 : c ≠ 44 := by
+    obtain ⟨c', u', hcu', _, _, h44', _⟩ := isInteger_head e.tok htok
+    rw [hcu] at hcu'
+    cases hcu'
+    exact h44'
   unfold elemRead
   simp only [hagg, if_true, bind, Except.bind, pure, Except.pure]
   have e1 : e.before ++ (e.tok ++ (e.after ++ d :: rest)) = e.before ++ c :: (u ++ (e.after ++ d :: rest)) := by rw [hcu]; simp
-  rw [e1, readTokenSeparator_seps e.before hb l c _ sk hcs h47]
+  rw [e1, readTokenSeparator_seps e.before hb l c _ sk hcs h47, elemMissing_tok env.cfg _ c _ sk h44 h41]
+  simp only [Bool.false_eq_true, if_false]
   have e2 : c :: (u ++ (e.after ++ d :: rest)) = e.tok ++ (e.after ++ d :: rest) := by rw [hcu]; simp
-  rw [e2, scalarNodeRead_integer]
+  rw [e2, elemReadCore_integer]
+  simp only [bind, Except.bind, pure, Except.pure]
+  rw [scalarNodeRead_integer]
   rw [readInteger_tok env.lex hcfg e.tok htok hlo (by omega) (e.before.reverse ++ l) sk e.after ha d rest hd]
   have h3 : (denoteInteger e.tok == longMax) = false := by simp; omega
   have hcri := cri_seps env.lex hcfg [] (Seps.blanks [] (by simp)) (e.after.reverse ++ (e.tok.reverse ++ (e.before.reverse ++ l))) rest d false sk Sev.null hd
